@@ -546,6 +546,42 @@ fn streams(ctx: &mut Ctx) {
             ctx.expect_eq("file.roundtrip", || format!("serialize_to/load_from IntVector len {}", len), &r, &Ok((true, iv.size_in_bytes() as u64)));
             ctx.case(hash64(&[9, k as u64, len as u64]), true);
         }
+        // Families of files in one directory whose names differ only in their extensions (as an index made of several
+        // files would be stored), among them names that look like somebody's temporary files: written one after the other
+        // and then by concurrent threads; every one of them must load back as what was written to it.
+        for k in 0..ctx.size(6, 40) {
+            if !ctx.begin_case() { continue; }
+            let dir = format!("{}/vmon-c06-family-{}-{}-{}", ctx.tmpdir, std::process::id(), ctx.shard, k);
+            if std::fs::create_dir_all(&dir).is_err() { ctx.inconclusive(format!("could not create {}", dir)); continue; }
+            let stem = ["index", "graph.v2", "a", ".hidden"][k % 4];
+            let exts = ["", ".values", ".bits", ".tmp", ".sds", ".sds.tmp", ".bak", ".part", "~", ".tmp.tmp", ".0", ".1"];
+            let values: Vec<IntVector> = (0..exts.len()).map(|j| { let w = 1 + rng.below(64); let n = if k % 2 == 0 { 20_000 + rng.below(60_000) } else { rng.below(300) }; let mut v = IntVector::with_capacity(n, w).unwrap(); for i in 0..n { v.push((i as u64).wrapping_mul(0x9E37_79B9_7F4A_7C15) ^ (j as u64)); } v }).collect();
+            let names: Vec<String> = exts.iter().map(|e| format!("{}/{}{}", dir, stem, e)).collect();
+            for concurrent in [false, true] {
+                let written: Vec<Result<(), String>> = if concurrent {
+                    let barrier = std::sync::Arc::new(std::sync::Barrier::new(names.len()));
+                    std::thread::scope(|sc| {
+                        let hs: Vec<_> = names.iter().zip(values.iter()).map(|(nm, v)| { let b = barrier.clone(); sc.spawn(move || { b.wait(); guard(|| serialize::serialize_to(v, nm).map_err(|e| e.to_string())).and_then(|r| r) }) }).collect();
+                        hs.into_iter().map(|h| h.join().unwrap_or_else(|_| Err("thread panicked".to_string()))).collect()
+                    })
+                } else {
+                    names.iter().zip(values.iter()).map(|(nm, v)| guard(|| serialize::serialize_to(v, nm).map_err(|e| e.to_string())).and_then(|r| r)).collect()
+                };
+                for (j, nm) in names.iter().enumerate() {
+                    let got = match &written[j] {
+                        Err(e) => Err(format!("serialize_to failed: {}", e)),
+                        Ok(()) => guard(|| -> Result<(bool, u64), String> { let size = std::fs::metadata(nm).map_err(|e| e.to_string())?.len(); let back: IntVector = serialize::load_from(nm).map_err(|e| e.to_string())?; Ok((back == values[j], size)) }).and_then(|r| r),
+                    };
+                    ctx.expect_eq(if concurrent { "file.family.concurrent" } else { "file.family.sequential" }, || format!("{} of {} files {}{{{}}} written {}: round trip of {:?} (IntVector width {} len {})", j, names.len(), stem, exts.join(","), if concurrent { "by concurrent threads" } else { "one after the other" }, nm, values[j].width(), values[j].len()), &Ok::<Result<(bool, u64), String>, String>(got), &Ok((true, values[j].size_in_bytes() as u64)));
+                }
+                for nm in names.iter() { let _ = std::fs::remove_file(nm); }
+            }
+            let left: Vec<String> = std::fs::read_dir(&dir).map(|rd| rd.filter_map(|e| e.ok()).map(|e| e.file_name().to_string_lossy().to_string()).collect()).unwrap_or_default();
+            ctx.count("file.family.leftover_files", left.len() as u64);
+            let _ = std::fs::remove_dir_all(&dir);
+            ctx.case(hash64(&[10, k as u64, values[0].len() as u64]), true);
+            ctx.sample(|| format!("file family: {} files named {}{{{}}} in one directory, written sequentially and then concurrently, all loaded back", names.len(), stem, exts.join(",")));
+        }
     }
 }
 
